@@ -17,6 +17,10 @@ import (
 // Locals' names never appear, so renaming and re-ordering independent code does not change it.
 func Sig(v ssa.Value) string { return sig(v, 0, map[ssa.Value]bool{}) }
 
+// sigValSubst: values rendered as another value (a phi as the operand of one incoming edge,
+// see PhiEdgeReaches).
+var sigValSubst = map[ssa.Value]ssa.Value{}
+
 // sigSubst: while the body of an entered helper is rendered, its parameters are rendered as
 // the signatures of the arguments at the call site (see ExpandAtom).
 var sigSubst = map[*ssa.Parameter]string{}
@@ -45,6 +49,9 @@ func sig(v ssa.Value, depth int, seen map[ssa.Value]bool) string {
 	}
 	if seen[v] {
 		return "<cycle>"
+	}
+	if sub, ok := sigValSubst[v]; ok && sub != v {
+		return sig(sub, depth, seen)
 	}
 	seen[v] = true
 	defer delete(seen, v)
